@@ -76,7 +76,8 @@ impl Backoff {
             self.value = self.config.max_value;
         } else if self.value < self.config.max_value {
             let increment = self.random_increment();
-            self.value += increment;
+            // Never exceed the maximum, not even until the next call.
+            self.value = (self.value + increment).min(self.config.max_value);
         }
 
         // Reset backoff after we've waited long enough.
